@@ -29,3 +29,5 @@ pub mod termios;
 pub mod time;
 pub mod unistd;
 pub mod usb;
+#[cfg(tiny_std_verif)]
+pub mod verif;
